@@ -387,6 +387,14 @@ package bcl
 //
 //@ group C10,C06,C17
 //@ func decl
+//@   assert [C17] var_declares_a_variable: at varDecl#1: p.prev.typ == tVAR
+//@   assert [C17] print_statement_after_print: at stmt.printStmt#1: p.prev.typ == tPRINT
+//@   assert [C17] eval_statement_after_eval: at stmt.exprStmt#1: p.prev.typ == tEVAL
+//@   assert [C17] block_after_def: at stmt.blockStmt#1: p.prev.typ == tDEF
+//@   assert [C17] bind_after_bind: at stmt.bindStmt#1: p.prev.typ == tBIND
+//@   assert [C17] bare_expression_only_inside_a_block: at stmt.exprStmt#2: p.scope.depth > 0
+//@   assert [C17] anything_else_at_top_level_is_an_error: at stmt.errorAtCurrent#1: p.scope.depth == 0
+//@   assert [C17] resynchronise_only_at_top_level_in_panic_mode: at sync#1: p.panicMode && p.scope.depth == 0
 //@   requires statement_boundary: g.uninit == 0 && (p.hadError || (g.pend == F0() && g.sd == p.scope.localCount))
 //@   ensures statement_boundary: g.uninit == 0 && (p.hadError || (g.pend == F0() && g.sd == p.scope.localCount))
 //@   ensures balanced: p.scope.depth == old(p.scope.depth) && (p.hadError || (g.bd == old(g.bd) && g.njopen == old(g.njopen)))
@@ -395,6 +403,22 @@ package bcl
 //@   ensures [C02] new_local_in_current_scope: p.hadError || (p.scope.localCount == old(p.scope.localCount) + 1 ==> p.scope.locals[old(p.scope.localCount)].depth == p.scope.depth)
 //@   ensures progress: g.consumed > old(g.consumed) || old(p.current.typ) <= tEOF
 //@   ensures [C17] toplevel_recovered: p.scope.depth == 0 ==> (!p.panicMode || p.current.typ == tFAIL)
+//
+// statement dispatch (C17): which keyword leads to which statement form
+//@ func printStmt
+//@   requires statement_boundary: g.uninit == 0 && (p.hadError || (g.pend == F0() && g.sd == p.scope.localCount))
+//@   ensures statement_boundary: g.uninit == 0 && (p.hadError || (g.pend == F0() && g.sd == p.scope.localCount))
+//@   ensures balanced: p.scope.depth == old(p.scope.depth) && p.scope.localCount == old(p.scope.localCount) && (p.hadError || (g.bd == old(g.bd) && g.njopen == old(g.njopen)))
+//@   ensures monotone: g.consumed >= old(g.consumed)
+//@   ensures progress: g.consumed > old(g.consumed) || old(p.current.typ) <= tEOF
+//@   assert [C17,C01] print_prints_the_expression_value: at emitOp#1: $op == opPRINT
+//@ func exprStmt
+//@   requires statement_boundary: g.uninit == 0 && (p.hadError || (g.pend == F0() && g.sd == p.scope.localCount))
+//@   ensures statement_boundary: g.uninit == 0 && (p.hadError || (g.pend == F0() && g.sd == p.scope.localCount))
+//@   ensures balanced: p.scope.depth == old(p.scope.depth) && p.scope.localCount == old(p.scope.localCount) && (p.hadError || (g.bd == old(g.bd) && g.njopen == old(g.njopen)))
+//@   ensures monotone: g.consumed >= old(g.consumed)
+//@   ensures progress: g.consumed > old(g.consumed) || old(p.current.typ) <= tEOF
+//@   assert [C17,C01] expression_statement_discards_its_value: at emitOp#1: $op == opPOP
 //
 //@ func blockStmt
 //@   assert [C03] block_name_is_the_unquoted_literal: at Unquote#1: $s == p.prev.val && p.prev.typ == tSTR
